@@ -14,10 +14,10 @@ using namespace sim;
 static vh::Run *RR;
 
 struct Model {
-	unsigned H; bool acceptor;
+	unsigned H; bool acceptor; bool reneg = false;	// reneg: the acceptor is configured with another interval (3H+1) than the one the Logon asks for (H)
 	std::vector<int> deltas;
 	enum { E_IN_HB, E_IN_TR_X, E_IN_APP, E_SEND, E_IN_TR_TEST, E_IN_AHEAD, E_TICK0 };
-	Model(unsigned h, bool acc) : H(h), acceptor(acc)
+	Model(unsigned h, int role) : H(h), acceptor(role >= 1), reneg(role == 2)
 	{
 		int t = (int)(H + H / 5);
 		for (int d : { 1, (int)H - 1, (int)H, t, t + 1 }) if (d >= 1 && std::find(deltas.begin(), deltas.end(), d) == deltas.end()) deltas.push_back(d);
@@ -28,12 +28,12 @@ struct Model {
 		switch (e) { case E_IN_HB: return "in-hb"; case E_IN_TR_X: return "in-testreq(X)"; case E_IN_APP: return "in-app"; case E_SEND: return "send"; case E_IN_TR_TEST: return "in-testreq(TEST)"; case E_IN_AHEAD: return "in-app-ahead"; }
 		return "wait" + std::to_string(deltas[e - E_TICK0]) + "s+tick";
 	}
-	std::string cfgname() const { return std::string(acceptor ? "acc" : "ini") + "-H" + std::to_string(H); }
+	std::string cfgname() const { return std::string(reneg ? "accneg" : acceptor ? "acc" : "ini") + "-H" + std::to_string(H); }
 
 	bfs::Step run(const bfs::Hist& h, bool verbose)
 	{
 		bfs::Step st;
-		WorldCfg wc; wc.acceptor = acceptor; wc.pk = P_NONE; wc.hb = H; wc.pm = pm_coro; if (!acceptor) { wc.us = "CLI"; wc.them = "SRV"; }
+		WorldCfg wc; wc.acceptor = acceptor; wc.pk = P_NONE; wc.hb = reneg ? 3 * H + 1 : H; wc.pm = pm_coro; if (!acceptor) { wc.us = "CLI"; wc.them = "SRV"; }
 		World w(wc);
 		sim::vnow_ns = 1700000000LL * 1000000000LL;
 		w.connect();
@@ -127,10 +127,10 @@ int main(int argc, char **argv)
 	std::vector<unsigned> hs; { std::istringstream is(R.args.get("H", "2,5")); std::string x; while (std::getline(is, x, ',')) hs.push_back(atoi(x.c_str())); }
 	if (R.single) {
 		size_t sc = R.single_case.find(';'); std::string cn = R.single_case.substr(0, sc);
-		for (unsigned H : { 1u, 2u, 3u, 5u, 7u, 10u, 30u }) for (int acc = 1; acc >= 0; --acc) { Model M(H, acc); if (M.cfgname() == cn) { R.begin_case(R.single_case); M.run(bfs::parse_hist(R.single_case.substr(sc + 1)), true); } }
+		for (unsigned H : { 1u, 2u, 3u, 5u, 7u, 10u, 30u }) for (int acc = 2; acc >= 0; --acc) { Model M(H, acc); if (M.cfgname() == cn) { R.begin_case(R.single_case); M.run(bfs::parse_hist(R.single_case.substr(sc + 1)), true); } }
 		R.finish(); return R.violations ? 1 : 0;
 	}
-	for (unsigned H : hs) for (int acc = 1; acc >= 0; --acc) { Model M(H, acc); bfs::explore(M, R, depth, M.cfgname()); if (R.hit_deadline) break; }
+	for (unsigned H : hs) for (int acc = 2; acc >= 0; --acc) { Model M(H, acc); bfs::explore(M, R, depth, M.cfgname()); if (R.hit_deadline) break; }
 	R.finish(true);
 	return 0;
 }
